@@ -418,7 +418,9 @@ int main(int argc, char **argv)
 	unsigned ncycles = (unsigned)vh::argU64(argc, argv, 3, 300);
 	unsigned stallmode = (unsigned)vh::argU64(argc, argv, 4, 0);
 	uint64_t only = vh::argU64(argc, argv, 5, ~0ull);
-	std::string custom = argc > 6 ? argv[6] : ""; // e.g. "0 8 dsb,red:2"  = stream kind, head width, stages (name[:a[:b]])
+	// custom chain: stream kind, head width, stages (name[:a[:b]]), e.g. "0 8 dsb,red:2" (one argument or three)
+	std::string custom;
+	for (int i = 6; i < argc; i++) custom += std::string(i > 6 ? " " : "") + argv[i];
 	std::cout << "# prop=C16 seed=" << seed << " ncases=" << ncases << " ncycles=" << ncycles << " stallmode=" << stallmode << "\n";
 	vh::Rng rng(seed * 0x9E3779B97F4A7C15ull + 16);
 	for (uint64_t id = 0; id < ncases; id++) {
